@@ -91,6 +91,14 @@ CLAIMED["C03"] = {
     "technique": "value terms of iterator state transitions + remainder normal form + guard dominance + write-set per exit",
 }
 
+CLAIMED["C08"] = {
+    "category": "other",
+    "text": "Absence of the known sources of profile/feature divergence on the parse path (all instances reachable from the public API of the no-default-features build): every overflow-checked, unchecked or dividing arithmetic site is enumerated and either discharged by a rule (constants, guarded subtraction, type ranges, bounded counters, proven struct invariants) or carries a listed reason; every type viewed over boot-loader memory is checked for invalid bit patterns field by field; every function body is structurally identical with/without the builder and alloc features and (thorough) with debug assertions on; no unchecked intrinsics. Nine genuine divergence sources remain as known findings. Equality of outcomes as such is not computed.",
+    "design_ref": "DESIGN.md §4 C08, §3.4, §3.11, §3.12",
+    "note": TB + "; exception-table reasons are hand-confirmed; LLVM-level behaviour out of reach",
+    "technique": "arithmetic-site census over the instance call graph with guard/range/invariant discharge + niche (bit-validity) census + cross-configuration structural body hashes",
+}
+
 PENDING = "check not yet built in this session (machinery under construction; see DESIGN.md §9 build order) - not claimed until its premises run, pass on the repaired tree and fire on seeded breaks"
 NOT_APPLICABLE = {("C%02d" % i): PENDING for i in range(1, 21)}
 
